@@ -28,6 +28,7 @@ let show_instr (i : instr) : string =
     let fs = Stdlib.List.map (fun (n, id) ->
       (let h = Conv.hex_of_bytes n in if h = "-" then "" else h) ^ "=" ^ string_of_int (Sx.int_of_nat id)) i.i_fm in
     "struct_field {" ^ Stdlib.String.concat "," (Stdlib.List.sort compare fs) ^ "}"
+  | OP_index | OP_array_clear | OP_array_clear_p -> Stdlib.Printf.sprintf "%s 0 0" (op_name i.i_op)   (* offsets / sizes are not compared *)
   | o -> Stdlib.Printf.sprintf "%s %d %d" (op_name o) (Sx.int_of_nat i.i_vi) (Conv.int_of_n i.i_vb)
 
 let show_prog (p : instr list) : string = Stdlib.String.concat ";" (Stdlib.List.map show_instr p)
